@@ -39,13 +39,6 @@ type psSnap struct {
 	Filter    string
 }
 
-type entry interface {
-	Bytes() ([]byte, error)
-	FromBytes([]byte) error
-	Cacheable(*cache.HTTPResponse, int)
-	HitForPass(int)
-}
-
 func snapOf(e interface{}) psSnap {
 	st, _ := cache.VerifEntry(e)
 	s := psSnap{Status: st.Status, CreatedAt: st.CreatedAt, ExpiredAt: st.ExpiredAt}
@@ -119,7 +112,8 @@ func Persist(w *world.World, raws []json.RawMessage) ([]interface{}, error) {
 			w.Base = 0
 			w.SetClock(4000000000000)
 		}
-		var e entry = cache.NewHTTPStoreCache([]byte(fmt.Sprintf("GET h /persist/%d", i)), nil)
+		// (no interface type here: the harness must keep compiling when a method gains a result)
+		e := cache.NewHTTPStoreCache([]byte(fmt.Sprintf("GET h /persist/%d", i)), nil)
 		if c.Status == "hitForPass" {
 			e.HitForPass(300)
 		} else {
